@@ -348,7 +348,7 @@ def normalise_function(fn: ast.AST, pinned: list) -> None:
         from . import equiv
 
         guard = 0
-        while equiv.inline_temporaries(fn, only=set(new)) and guard < 100:
+        while equiv.inline_temporaries(fn, only=set(new), sigs=equiv._ACTIVE_SIGS) and guard < 100:  # pylint: disable=protected-access
             guard += 1
         cur = own_locals(fn)
         new = [n for n in cur if n not in pinned]
@@ -362,7 +362,11 @@ def normalise_function(fn: ast.AST, pinned: list) -> None:
 
 def _simple_expr(e: ast.AST) -> bool:
     """An argument expression that may be substituted for a parameter without changing evaluation (name, constant, attribute
-    chain of a name)."""
+    chain of a name none of whose attributes is a computing property anywhere in the program)."""
+    from . import equiv
+
+    if isinstance(e, ast.Attribute) and equiv._computing_chain(e):  # pylint: disable=protected-access
+        return False
     while isinstance(e, ast.Attribute):
         e = e.value
     return isinstance(e, (ast.Name, ast.Constant))
@@ -590,6 +594,27 @@ def inline_helpers(tree: ast.AST, defs: dict, select: typing.Callable[[str, ast.
                         tail = []  # ``a, b = a, b``: the helper left its results in the very variables they are assigned to
                 seq[k:k + 1] = prelude + stmts + tail
                 done += 1
+            elif ret is not None and (prelude or stmts) and isinstance(st, (ast.Assign, ast.AnnAssign, ast.Return, ast.Expr, ast.AugAssign)):
+                # a multi-statement helper called inside a larger expression: its statements run first, if the call is
+                # evaluated unconditionally and before any other call of that statement
+                from . import equiv
+
+                order: list = []
+                equiv._postorder(st, order)  # pylint: disable=protected-access
+                pos = next((j for j, x in enumerate(order) if x is call), None)
+                earlier = [x for x in order[:pos] if isinstance(x, ast.Call) and not any(x is y for y in ast.walk(call))] if pos is not None else [None]
+                if pos is None or earlier or equiv._conditional_position(st, call):  # pylint: disable=protected-access
+                    continue
+                tmp = f'{name}__r{done}'
+                hoisted = prelude + stmts + [ast.Assign(targets=[ast.Name(id=tmp, ctx=ast.Store())], value=ret, lineno=st.lineno, col_offset=0)]
+
+                class Rep2(ast.NodeTransformer):
+                    def visit_Call(self, n):  # noqa: N802
+                        self.generic_visit(n)
+                        return ast.copy_location(ast.Name(id=tmp, ctx=ast.Load()), n) if n is call else n
+
+                seq[k:k + 1] = hoisted + [Rep2().visit(st)]
+                done += 1
             elif not prelude and not stmts and ret is not None:
                 # one-expression helper inside a larger expression
                 class Rep(ast.NodeTransformer):
@@ -708,14 +733,16 @@ class Module:
         changed = False
         if strip_noops(self.tree):
             changed = True
-        if inline_unknown_helpers(self, pinned):
-            changed = True
-            self.defs.clear()
-            self.assigns.clear()
-            self._index()
         if changed:
             ast.fix_missing_locations(self.tree)
             set_parents(self.tree)
+
+    def _undo_extractions(self) -> None:
+        """Second phase (Program, once the whole-program index exists): new call-only helpers are spliced back."""
+        if inline_unknown_helpers(self, pinned_locals()):
+            self.defs.clear()
+            self.assigns.clear()
+            self._index()
 
     def _normalise_mild(self) -> None:
         """Second phase (after the equivalence substitution, see Program): functions that could not be proved equivalent to
@@ -1068,7 +1095,9 @@ class Program:
 
             changed_mods = [m for m in self.modules.values() if equiv.pinned_sources().get(m.name) not in (None, m.source)]
             sigs = equiv.SignatureIndex(self.modules.values()) if changed_mods else None
+            equiv._ACTIVE_SIGS = sigs  # pylint: disable=protected-access
             for mod in changed_mods:
+                mod._undo_extractions()  # pylint: disable=protected-access
                 mod.equivalent = equiv.substitute_equivalent(mod, sigs)
                 if mod.equivalent:
                     ast.fix_missing_locations(mod.tree)
